@@ -135,6 +135,7 @@ def run_C16(ctx, R):
     from .rules import tab, lst, out, utilsx
     _scoped(ctx, R, utilsx.tab18, C16_ENTRIES, 3)
     _scoped(ctx, R, utilsx.ord1, C16_ENTRIES, 3)
+    _per_config(ctx, R, _own_utils({'apply_patch', 'detach_path', 'cJSONUtils_ApplyPatches', 'cJSONUtils_ApplyPatchesCaseSensitive'}))
     _per_config(ctx, R, tab.tab12)
     _per_config(ctx, R, tab.tab10)
     _scoped(ctx, R, tab.tab11, C16_ENTRIES, 25)
@@ -145,8 +146,18 @@ def run_C16(ctx, R):
     _scoped(ctx, R, out.out6, C16_ENTRIES, 4)
 
 
+def _own_utils(names):
+    def run(units, r):
+        from .rules import own
+        own.own_engine(units, r, unit_name='cJSON_Utils.c', alloc_may_fail=False, only=names)
+        r.floor('OWN2', 'allocation/detach sites examined in Utils', len([o for o in r.obs if o.rule == 'OWN2']), 3)
+    return run
+
+
 def run_C17(ctx, R):
-    from .rules import tab, lst, out
+    from .rules import tab, lst, out, utilsx
+    _per_config(ctx, R, lambda units, r: utilsx.inputs_only_relinked(units, r, roots=('create_patches',)))
+    _per_config(ctx, R, _own_utils({'create_patches', 'compose_patch', 'cJSONUtils_GeneratePatches', 'cJSONUtils_GeneratePatchesCaseSensitive'}))
     _scoped(ctx, R, tab.tab20, C17_ENTRIES, 0)
     _scoped(ctx, R, out.out7, C17_ENTRIES, 6)
     _per_config(ctx, R, tab.tab9)
@@ -157,7 +168,9 @@ def run_C17(ctx, R):
 
 
 def run_C18(ctx, R):
-    from .rules import tab, lst
+    from .rules import tab, lst, utilsx
+    _per_config(ctx, R, lambda units, r: utilsx.inputs_only_relinked(units, r, roots=('generate_merge_patch', 'compare_json')))
+    _per_config(ctx, R, _own_utils({'merge_patch', 'generate_merge_patch'}))
     _scoped(ctx, R, tab.tab20, C18_ENTRIES, 0)
     _scoped(ctx, R, tab.tab11, C18_ENTRIES, 15)
     _scoped(ctx, R, lst.lst1, C18_ENTRIES, 3)
@@ -614,7 +627,7 @@ PROPERTIES = {
                         'read bounds of the tokenisers (BND3, planned)'],
     },
     'C16': {
-        'run': run_C16, 'modules': ['utils'],
+        'run': run_C16, 'modules': ['utils', 'own'],
         'explanation':
             "Survival and table clauses of patch application on every function reachable from cJSONUtils_ApplyPatches*. "
             "TAB12: every payload field (valuestring/child/value*) of a node looked up in the caller-supplied patch "
@@ -623,29 +636,38 @@ PROPERTIES = {
             "propagation (detach, lookup, compare, sort). TAB9/OUT5/OUT6: the in-place key decoder agrees with the other "
             "pointer tables, leaves no unwritten byte behind its write cursor and never writes ahead of its read "
             "cursor. LST1: every mutator that stores a child pointer restores the first child's back link (the test "
-            "operation sorts both operands). TAB8: index digit test.",
+            "operation sorts both operands). TAB8/TAB18: index digit test, no narrowing of the decoded index. ORD1: a node resolved "
+            "in the document is not used after a call that may unlink/release nodes of it. OWN2/OWN4 (typestate engine, allocation "
+            "failure not modelled here): on every path of apply_patch/detach_path the duplicated or detached value and the pointer "
+            "copy are released, linked into the document or returned - no leak and no double release for any patch document.",
         'not_decided': ['RFC 6902 results (which document results, which status)', "'move into own child' refusal",
-                        'leak freedom of apply_patch on every exit (OWN2, planned)'],
+                        ],
     },
     'C17': {
-        'run': run_C17, 'modules': ['utils'],
+        'run': run_C17, 'modules': ['utils', 'own'],
         'explanation':
             "Path construction and input preservation clauses of patch generation. OUT7: each path buffer (compose_patch, "
             "create_patches array and object arms) is sized for what is written, with the encoded length taken of the "
             "same key that is encoded and the key appended exactly where the text so far ends. TAB9/OUT5: escape tables "
             "and gap-free encoding. LST1+LST5: sort_object (run on both inputs) restores the tail link and sort_list "
             "stores only next/prev and calls only itself and the comparator, so inputs are merely re-linked. TAB11: "
-            "the flag reaches sort and compare.",
+            "the flag reaches sort and compare. INP: create_patches stores through nothing derived from its two inputs and hands "
+            "input nodes only to const parameters, the sorter, the comparator and itself. OWN2: path buffers and patch objects are "
+            "released or linked on every path. TAB20: key order comes from the comparator only.",
         'not_decided': ['that applying the generated patch yields the target; emptiness iff equal; array index arithmetic'],
     },
     'C18': {
-        'run': run_C18, 'modules': ['utils'],
+        'run': run_C18, 'modules': ['utils', 'own'],
         'explanation':
             "TAB11: on every function reachable from the four merge-patch entry points the case_sensitive flag is passed "
             "unchanged (never a constant, never through a case-folding public entry point) at every nesting level. "
-            "LST1/LST5: generation sorts both inputs through sort_object, which restores the tail link and only re-links.",
+            "LST1/LST5: generation sorts both inputs through sort_object, which restores the tail link and only re-links. INP: "
+            "generate_merge_patch and compare_json store through nothing derived from their inputs. OWN2 (allocation failure not "
+            "modelled): in merge_patch the detached member is consumed by the recursive call on every path and the target is "
+            "released on the failure exit; generate_merge_patch releases the empty patch object. TAB20: the merge walk orders keys "
+            "with strcmp/compare_strings only.",
         'not_decided': ['the RFC 7396 result itself (null deletes, non-object replaces, recursion) - semantic, not '
-                        'approximated', 'release of the detached member on every path (OWN2, planned)'],
+                        'approximated'],
     },
     'C19': {
         'run': run_C19, 'modules': ['utils'],
